@@ -7,9 +7,9 @@
 #define GMP_MODEL_N 14
 #endif
 #ifdef IR2C_SCALE
-typedef signed __CPROVER_bitvector[IR2C_SCALE * 4 + 1] gz_t;        /* holds any 4W-bit magnitude */
-typedef signed __CPROVER_bitvector[IR2C_SCALE * 8 + 2] gz2_t;      /* products of two gz_t */
-typedef unsigned __CPROVER_bitvector[IR2C_SCALE * 4 + 1] ugz_t;
+typedef IR2C_SBV(IR2C_SCALE * 4 + 1) gz_t;        /* holds any 4W-bit magnitude */
+typedef IR2C_SBV(IR2C_SCALE * 8 + 2) gz2_t;      /* products of two gz_t */
+typedef IR2C_UBV(IR2C_SCALE * 4 + 1) ugz_t;
 #define GZ_MAX ((gz2_t)(((gz2_t)1 << (IR2C_SCALE * 4)) - 1))
 #define GZ_W32 IR2C_SCALE
 #define GZ_W64 (IR2C_SCALE * 2)
@@ -63,14 +63,14 @@ void __gmpz_set(mpz_m *r, mpz_m *a) { gz_put(r, gz_get(a)); }
 void __gmpz_init_set(mpz_m *r, mpz_m *a) { __gmpz_init(r); gz_put(r, gz_get(a)); }
 static gz2_t gz_sx64(uint64_t v) {
 #ifdef IR2C_SCALE
-  return (gz2_t)(signed __CPROVER_bitvector[GZ_W64])(unsigned __CPROVER_bitvector[GZ_W64])v;
+  return (gz2_t)(IR2C_SBV(GZ_W64))(IR2C_UBV(GZ_W64))v;
 #else
   return (gz2_t)(int64_t)v;
 #endif
 }
 static gz2_t gz_zx64(uint64_t v) {
 #ifdef IR2C_SCALE
-  return (gz2_t)(unsigned __CPROVER_bitvector[GZ_W64])v;
+  return (gz2_t)(IR2C_UBV(GZ_W64))v;
 #else
   return (gz2_t)(unsigned __int128)v;
 #endif
@@ -95,7 +95,7 @@ uint32_t __gmpz_fits_ulong_p(mpz_m *z) { gz_t v = gz_get(z); return (v >= 0 && v
 uint64_t __gmpz_get_ui(mpz_m *z) {
   gz_t v = gz_get(z); ugz_t a = (ugz_t)(v < 0 ? -v : v);
 #ifdef IR2C_SCALE
-  return (uint64_t)(unsigned __CPROVER_bitvector[GZ_W64])a;
+  return (uint64_t)(IR2C_UBV(GZ_W64))a;
 #else
   return (uint64_t)a;
 #endif
@@ -104,9 +104,9 @@ uint64_t __gmpz_get_si(mpz_m *z) {
   gz_t v = gz_get(z); ugz_t a = (ugz_t)(v < 0 ? -v : v);
 #ifdef IR2C_SCALE
   /* GMP: size>0: zl & LONG_MAX ; size<0: -1 - ((zl-1) & LONG_MAX) */
-  unsigned __CPROVER_bitvector[GZ_W64] m = (unsigned __CPROVER_bitvector[GZ_W64])(GZ_POW(GZ_W64 - 1) - 1);
-  unsigned __CPROVER_bitvector[GZ_W64] lo = (unsigned __CPROVER_bitvector[GZ_W64])a;
-  if (v > 0) lo = lo & m; else if (v < 0) lo = (unsigned __CPROVER_bitvector[GZ_W64])(0 - 1 - ((lo - 1) & m));
+  IR2C_UBV(GZ_W64) m = (IR2C_UBV(GZ_W64))(GZ_POW(GZ_W64 - 1) - 1);
+  IR2C_UBV(GZ_W64) lo = (IR2C_UBV(GZ_W64))a;
+  if (v > 0) lo = lo & m; else if (v < 0) lo = (IR2C_UBV(GZ_W64))(0 - 1 - ((lo - 1) & m));
   return (uint64_t)lo;
 #else
   uint64_t lo = (uint64_t)a;
@@ -117,14 +117,20 @@ uint64_t __gmpz_get_si(mpz_m *z) {
 }
 
 /* exact gcd by specification: g>0 divides both, cofactors coprime (Bezout witness).  */
+#ifdef __CPROVER__
 gz_t nondet_gz(void);
+#else
+static gz_t nondet_gz(void) { return (gz_t)ir2c_next_input128(); }
+#endif
+static gz_t ir2c_in_gz;   /* every nondet of the model passes through this cell so that traces list it */
+#define GZ_NONDET() (ir2c_in_gz = nondet_gz())
 static gz_t gz_gcd(gz_t a, gz_t b) {
   if (a < 0) a = -a;
   if (b < 0) b = -b;
   if (a == 0) return b;
   if (b == 0) return a;
   if (a == 1 || b == 1) return 1;
-  gz_t g = nondet_gz(), x = nondet_gz(), y = nondet_gz();
+  gz_t g = GZ_NONDET(), x = GZ_NONDET(), y = GZ_NONDET();
   __CPROVER_assume(g >= 1 && g <= a && g <= b);
   gz_t ca = a / g, cb = b / g;
   __CPROVER_assume(ca * g == a && cb * g == b);
@@ -155,7 +161,7 @@ static int gq_coprime_assumed(gz_t a, gz_t b) {
   if (a < 0) a = -a;
   if (a == 0) return b == 1;
   if (a == 1 || b == 1) return 1;
-  gz_t x = nondet_gz(), y = nondet_gz();
+  gz_t x = GZ_NONDET(), y = GZ_NONDET();
   __CPROVER_assume(x >= -b && x <= b && y >= -a && y <= a);
   return (gz2_t)x * a + (gz2_t)y * b == 1;
 }
@@ -163,7 +169,7 @@ static void gq_opaque(int kind, mpq_m *r, mpq_m *a, mpq_m *b) {
   gq_kind = kind; gq_nops++;
   gq_an = gz_get(&a->f0); gq_ad = gz_get(&a->f1);
   if (b) { gq_bn = gz_get(&b->f0); gq_bd = gz_get(&b->f1); } else { gq_bn = 0; gq_bd = 1; }
-  gz_t rn = nondet_gz(), rd = nondet_gz();
+  gz_t rn = GZ_NONDET(), rd = GZ_NONDET();
   __CPROVER_assume(rd >= 1 && rd < ((gz_t)1 << GMP_OPAQUE_BITS) && rn > -((gz_t)1 << GMP_OPAQUE_BITS) && rn < ((gz_t)1 << GMP_OPAQUE_BITS));
   __CPROVER_assume(gq_coprime_assumed(rn, rd));
   gq_rn = rn; gq_rd = rd;
@@ -284,7 +290,7 @@ uint64_t vgmp_get_si(mpz_m *z) {
   gz_t v = gz_get(z);
   __CPROVER_assert(v >= -GZ_POW(GZ_W64 - 1) && v < GZ_POW(GZ_W64 - 1), "vgmp_get_si: value does not fit lword");
 #ifdef IR2C_SCALE
-  return (uint64_t)(unsigned __CPROVER_bitvector[GZ_W64])(signed __CPROVER_bitvector[GZ_W64])v;
+  return (uint64_t)(IR2C_UBV(GZ_W64))(IR2C_SBV(GZ_W64))v;
 #else
   return (uint64_t)(int64_t)v;
 #endif
